@@ -12,7 +12,10 @@ use crate::xtapi::{detect, random_supply, translate, Fmt, Supply, ALL_FMTS, STRE
 /// Independent decision (serde_json called directly): does the text begin
 /// with a complete JSON value, i.e. would a JSON trial accept it?
 fn json_accepts(b: &[u8]) -> bool {
-	matches!(serde_json::Deserializer::from_slice(b).into_iter::<serde::de::IgnoredAny>().next(), Some(Ok(_)))
+	// "Accepts" in the sense of a detection trial: a complete first JSON value
+	// can be read from the start of the text (`0o17 = 127` begins with `0`).
+	let mut de = serde_json::Deserializer::from_slice(b);
+	serde::de::IgnoredAny::deserialize(&mut de).is_ok()
 }
 
 /// Independent decision (serde_yaml called directly): is the text a YAML
